@@ -188,6 +188,8 @@ structure PState where
   nextSeqn : List ((Nat × Nat) × Nat) := []           -- (UP SEID, URR id) ↦ UR-SEQN the next report must carry
   c12 : List (Nat × C12Sess) := []                    -- UP SEID ↦ the PDR → URR lists and live URRs the requests imply (C12)
   faultPct : Nat := 0
+  own : List (Nat × String) := []                     -- UP SEID ↦ the node id the session belongs to, as the requests say (C05)
+  hadTakeover : Bool := false
 deriving Inhabited
 
 def eventKind (toks : List String) : String := lookD (kvs toks) "kind" (toks.headD "")
@@ -521,7 +523,32 @@ def check (ps : PState) (evLine : String) (obs : List String) (fault : Option St
             if got != want then
               fs := fs ++ [s!"C10 the data plane reported URR {uid} of session {hexN seid} {want} time(s) (known to the session: {ds.urrs.any (·.id == uid)}); the Session Report Request carries it {got} time(s)"]
     return fs
-  let fails := fails ++ c11fails ++ c12fails ++ c10fails
+  -- C05 (external): whose session is it?  By the requests: the node id of the Establishment Request, later the node id of
+  -- a Modification Request that takes THIS session over.  Re-association of node id N removes exactly those sessions.
+  let (own', c05fails) : List (Nat × String) × List String := Id.run do
+    let mut own := ps.own
+    let mut fs : List String := []
+    if typ == "recv" && !isDup then
+      if kind == "est" && lookD m "node" "-" != "-" then
+        for s in sends do
+          if s.kind == "estrsp" && lookD s.f "cause" "" == "1" then
+            let up := hexD ((splitOn1 (lookD s.f "fseid" "-") '/').headD "0")
+            own := (up, lookD m "node" "-") :: own.filter (·.1 != up)
+      if kind == "mod" && lookD m "node" "-" != "-" && (prev.live seid).isSome then
+        own := (seid, lookD m "node" "-") :: own.filter (·.1 != seid)
+      if kind == "assoc" && lookD m "node" "-" != "-" && (sends.any fun s => s.kind == "assocrsp" && lookD s.f "cause" "" == "1") then
+        let n := lookD m "node" "-"
+        let expected := ((own.filter (·.2 == n)).map (·.1)).filter fun up => (prev.live up).isSome
+        let actual := (prev.sess.filter fun s => (d.live s.up).isNone).map (·.up)
+        let srt (l : List Nat) : List Nat := (l.toArray.qsort (· < ·)).toList
+        if srt expected != srt actual then
+          fs := fs ++ [s!"C05 re-association of node {n} removed sessions {reprStr (srt (actual.map id))}; the sessions established under (or taken over by) that node id are {reprStr (srt expected)}" ++
+                       (if ps.hadTakeover then " sig=takeoverNode" else "")]
+    -- sessions that are gone are nobody's
+    own := own.filter fun e => (d.live e.1).isSome
+    return (own, fs)
+  let hadTakeover' := ps.hadTakeover || (typ == "recv" && kind == "mod" && lookD m "node" "-" != "-" && !isDup && (prev.live seid).isSome)
+  let fails := fails ++ c11fails ++ c12fails ++ c10fails ++ c05fails
   -- bookkeeping for the next event
   let cache' := if typ == "recv" && kind ∈ ["hb", "assoc", "est", "mod", "del", "other"] && !isDup then
       let rsp := (sends.filter fun s => s.kind != "srreq" && s.peer == peer).map (·.raw)
@@ -535,6 +562,6 @@ def check (ps : PState) (evLine : String) (obs : List String) (fault : Option St
   let outst0 := if typ == "recv" && (kind == "srrsp" || kind == "orsp") then ps.outst.filter (·.1 != (peer, seq)) else ps.outst
   let outst1 := if typ == "tmo" && lookD m "k" "" == "tx" && !(d.tx.any fun t => t.1 == s!"p{peer}-{seq}")
     then outst0.filter (·.1 != (peer, seq)) else outst0
-  ({ ps with prev := d, cache := cache', outst := outst1 ++ newReqs, nextSeqn := seq1, c12 := c12' }, fails)
+  ({ ps with prev := d, cache := cache', outst := outst1 ++ newReqs, nextSeqn := seq1, c12 := c12', own := own', hadTakeover := hadTakeover' }, fails)
 
 end UpfVerif.Driver.CtlProps
